@@ -19,8 +19,16 @@
 //	   history (both for the path stored when it was first produced -- a later
 //	   listing -- and for a freshly produced path).
 //
-// A process start costs ~0.1-0.3 CPU-seconds in the sandbox, which is what
-// bounds the number of histories (quick ~130, thorough ~1800 processes).
+//	C. listing (listing.go): the clause "so listings report the names that were
+//	   uploaded" on the real backend clients that list by storage path (hdfs,
+//	   s3, gcs over in-memory stores, testfs over its real server handler):
+//	   backend x scheme x root spelling x every small SET of uploaded names x
+//	   every list prefix; List must report exactly what was uploaded.
+//
+// A process start costs ~0.1-0.3 CPU-seconds in the sandbox (about twice that
+// since the backend clients, and with them the AWS / GCS SDKs, are linked for
+// part C), which is what bounds the number of histories (quick ~160, thorough
+// ~1850 processes).
 // The parent process never calls namepath itself.
 package main
 
@@ -43,9 +51,9 @@ import (
 	"github.com/uber/kraken/lib/backend/namepath"
 
 	"verif/evid"
-	// verif/quiet is deliberately not imported: namepath does not log, and
-	// linking kraken's logger (zap, otel, net/http) triples the start-up cost of
-	// every child process.
+	// part C links the backend clients (which log a path they cannot convert
+	// and skip it): kraken's logger is silenced.
+	_ "verif/quiet"
 )
 
 // ---------------------------------------------------------------------------
@@ -346,6 +354,9 @@ type spec struct {
 	MaxComp int    `json:"max_comp"`
 	Lead    int    `json:"lead"`
 	IDLen   int    `json:"id_len"`
+	// Listing != nil: the process runs part C for one (backend, scheme) over
+	// some roots instead of a history of pather uses.
+	Listing *listSpec `json:"listing,omitempty"`
 }
 
 // failure: the round trip of use Victim (a step index) did not hold when
@@ -372,7 +383,8 @@ type stepReport struct {
 }
 
 type report struct {
-	Steps []stepReport `json:"steps"`
+	Steps   []stepReport `json:"steps"`
+	Listing *listReport  `json:"listing,omitempty"`
 }
 
 func domainNames(scheme string, sp spec) []string {
@@ -555,7 +567,13 @@ func childMain() {
 		fmt.Fprintf(os.Stderr, "child: bad spec: %v\n", err)
 		os.Exit(3)
 	}
-	rep := execHistory(sp)
+	var rep report
+	if sp.Listing != nil {
+		lr := execListing(*sp.Listing)
+		rep.Listing = &lr
+	} else {
+		rep = execHistory(sp)
+	}
 	if err := json.NewEncoder(os.Stdout).Encode(rep); err != nil {
 		fmt.Fprintf(os.Stderr, "child: %v\n", err)
 		os.Exit(3)
@@ -588,6 +606,9 @@ func runChild(sp spec, timeout time.Duration) (*report, error) {
 	}
 	if len(r.Steps) != len(sp.Steps) {
 		return nil, fmt.Errorf("child process for %s: %d step reports", in, len(r.Steps))
+	}
+	if sp.Listing != nil && (r.Listing == nil || len(r.Listing.Roots) != len(sp.Listing.Roots)) {
+		return nil, fmt.Errorf("child process for %s: listing report missing or short", in)
 	}
 	return &r, nil
 }
@@ -797,7 +818,15 @@ func main() {
 	if selfExe, err = os.Executable(); err != nil {
 		run.Fatal(err)
 	}
-	childEnv = append(os.Environ(), childEnvVar+"=1", "GOMAXPROCS=1")
+	// AWS_CA_BUNDLE makes every session.NewSession inside s3backend.NewClient
+	// parse the system's CA bundle (tens of ms per client): no connection is
+	// ever made, so it is taken out of the children's environment.
+	for _, kv := range os.Environ() {
+		if !strings.HasPrefix(kv, "AWS_CA_BUNDLE=") {
+			childEnv = append(childEnv, kv)
+		}
+	}
+	childEnv = append(childEnv, childEnvVar+"=1", "GOMAXPROCS=1")
 
 	maxComp, lead, idLen, budget := 2, 2, 4, 100*time.Second // measured 8-30 s wall at machine load ~60, 65-75 s at load ~110 (16 workers); the budget only cuts under heavier load
 	if run.Thorough() {
